@@ -100,6 +100,7 @@ fn snapshot_method(m: &MDesc, len: u64, class: usize, seed: u64, all_k: bool, r:
 			// two routes: JSON value (+ text), and the bit-exact tree of sv.rs (which can carry NaN / inf state)
 			for route in 0..2 {
 			r.eval(1);
+			r.case_named(m.name, &[13, reg::json_hash(&par.show()), class as u64, seed, k as u64, route]);
 			let snap = match guard(|| if route == 0 { inst.ser().map(Snap::J) } else { inst.ser_b().map(Snap::B) }) {
 				Ok(Ok(v)) => v,
 				Ok(Err(e)) => {
@@ -164,6 +165,7 @@ fn snapshot_method(m: &MDesc, len: u64, class: usize, seed: u64, all_k: bool, r:
 								}
 							}
 						}
+						let diverged = bad.is_some();
 						if let Some((j, a, b)) = bad {
 							// root-cause keyed: SMM rebuilds its sorted buffer on restore, so equal zeros may change places
 							let zero_only = a.as_f64().map_or(false, |x| x == 0.0) && b.as_f64().map_or(false, |x| x == 0.0);
@@ -172,6 +174,7 @@ fn snapshot_method(m: &MDesc, len: u64, class: usize, seed: u64, all_k: bool, r:
 						}
 						done += 1;
 						r.cell(&format!("snapshot:{}:{}", m.name, if k == 0 { "fresh" } else if k < n { "warm-up" } else { "steady" }));
+						r.sample_case(211, || json!({"method": m.name, "params": par.show(), "stream_class": class, "snapshot_after_steps": k, "route": if route == 0 { "serde_json value + text" } else { "bit-exact tree (NaN-capable)" }, "state_had_non_finite_values": snap.nonfinite(), "continuation_steps_compared": cont.min(xs.len() - k), "verdict": if !diverged { "bit-identical" } else { "diverged" }}));
 						if empty_window {
 							r.cell("snapshot:windowless-variant");
 						}
@@ -229,6 +232,7 @@ fn snapshot_indicator(d: &reg::IDesc, cfg: &dyn reg::DC, cs: &[Candle], seed: u6
 		if ks.contains(&k) {
 			for route in 0..2 {
 			r.eval(1);
+			r.case_named(d.name, &[131, reg::json_hash(&cfgv), reg::candles_hash(cs), k as u64, route]);
 			match guard(|| if route == 0 { inst.ser().map(Snap::J) } else { inst.ser_b().map(Snap::B) }) {
 				Ok(Ok(snap)) => {
 					if snap.json_with_null() {
@@ -348,6 +352,7 @@ fn adversarial_in(name: &str, snap: &Value, de: &dyn Fn(&Value) -> Result<(), St
 			}
 			*slot = nw;
 			r.eval(1);
+			r.case_named(name, &[132, reg::json_hash(&v)]);
 			let res = guard(|| de(&v));
 			match res {
 				Err(p) => r.violate(&format!("C13|{name}|malformed-window-panics|{mname}|{}", p.class()), &format!("deserializing an instance with window {mname} panicked: {}", p.msg), || json!({"site": name, "window_path": path, "mutation": mname})),
